@@ -162,3 +162,22 @@ fn c15_spatial_track_without_listener_is_silent() {
 	std::mem::forget(track); std::mem::forget(st); std::mem::forget(stc); std::mem::forget(sc); std::mem::forget(tc); std::mem::forget(cw);
 	std::mem::forget(clocks); std::mem::forget(modulators); std::mem::forget(listeners);
 }
+
+// @h prop=C15 tier=quick kind=main timeout=600
+// @bounds listener at ANY small-integer position (|coordinate| <= 8) facing forwards (identity) or turned around (180 degrees about the vertical axis), symbolic
+// @funcs listener_ear_positions, glam Quat * Vec3 (scalar-math)
+// @catches the listener's orientation being applied to its POSITION as well as to the ear offset (the whole head would swing around the world origin: wrong side favoured for a turned listener away from the origin, no invariance under rigid motion); ears on the wrong side; ear distance changed
+#[kani::proof]
+#[kani::unwind(2)]
+fn c15_ears_sit_beside_the_listener_wherever_it_is_and_however_it_is_turned() {
+	let sm = || { let v: i8 = kani::any(); kani::assume(v >= -8 && v <= 8); v as f32 };
+	let (px, py, pz) = (sm(), sm(), sm());
+	let turned: bool = kani::any();
+	let q = if turned { Quat::from_xyzw(0.0, 1.0, 0.0, 0.0) } else { Quat::IDENTITY };
+	let (l, r) = listener_ear_positions(Vec3::new(px, py, pz), q);
+	let side = if turned { 0.1f32 } else { -0.1f32 }; // the left ear is at -x for a listener facing forwards, at +x once turned around
+	let close = |a: f32, b: f32| (a - b).abs() <= 1.0e-5;
+	assert!(close(l.x, px + side) && close(l.y, py) && close(l.z, pz), "left ear: 0.1 to the listener's left of its position");
+	assert!(close(r.x, px - side) && close(r.y, py) && close(r.z, pz), "right ear: 0.1 to the listener's right of its position");
+	kani::cover!(turned && px == 8.0, "witness");
+}
